@@ -174,4 +174,70 @@ pub fn run(args: &Args, out: &mut Out) {
             &list(vec![show(&r.0), show(&r.1), show(&r.2), show(&r.3), show(&r.4), show(&r.5)]),
         );
     }
+
+    // ---- Luau: uses inside `typeof(…)` type annotations (an expression in type position) ---------------------
+    luau_stage(out);
+}
+
+/// (root, expression in type position, what it normally triggers)
+const LUAU_USES: &[(&str, &str, &str)] = &[
+    ("math", "local _u: typeof(math.nope) = nil", "typeof-no-field"),
+    ("math", "local _u = (nil :: typeof(math.nope))", "cast-typeof-no-field"),
+    ("math", "local _u: typeof(math.floor(\"x\")) = nil", "typeof-call-type"),
+    ("table", "local _u: typeof(table.getn(t)) = nil", "typeof-deprecated-call"),
+    ("table", "local _u: { typeof(table.getn) } = {}", "typeof-in-table-type"),
+    ("string", "local function _g(_p: typeof(string.nope)) end", "typeof-parameter-annotation"),
+    ("math", "type _T = typeof(math.nope)", "typeof-type-alias"),
+    ("math", "local _u = math.nope", "control-plain"),
+];
+
+const LUAU_BINDINGS: &[(&str, &str, &str)] = &[
+    ("local", "do\n  local {R} = {}\n  ", "\nend\n"),
+    ("param", "local function _f({R})\n  ", "\nend\n"),
+    ("typed-param", "local function _f({R}: any)\n  ", "\nend\n"),
+    ("generic-for", "for _k, {R} in pairs(t) do\n  ", "\nend\n"),
+    ("typed-local", "do\n  local {R}: any = {}\n  ", "\nend\n"),
+];
+
+fn luau_stage(out: &mut Out) {
+    let luau = match StandardLibrary::from_name("luau") {
+        Some(l) => l,
+        None => return,
+    };
+    let (version, _) = luau.lua_version();
+    let checker: Checker<toml::value::Value> = Checker::new(CheckerConfig::default(), luau).unwrap();
+    let diags = |src: &str| -> Option<Vec<String>> {
+        let ast = std::panic::catch_unwind(|| full_moon::parse_fallible(src, version).into_result()).ok()?.ok()?;
+        let (_c, _s, d) = astdump::dump(&ast);
+        let diags = std::panic::catch_unwind(std::panic::AssertUnwindSafe(|| checker.test_on(&ast))).ok()?;
+        let id = |s: &str| s.to_owned();
+        let mut v: Vec<String> = diags.iter().filter(|x| CODES.contains(&x.diagnostic.code)).map(|x| canon(x, &d, &id)).collect();
+        v.sort();
+        Some(v)
+    };
+    let prelude = "local t, f = {}, nil\n";
+    for (root, use_stmt, what) in LUAU_USES {
+        for (bname, before, after) in LUAU_BINDINGS {
+            let bind = |r: &str| (before.replace("{R}", r), (*after).to_owned());
+            let (b1, a1) = bind(root);
+            let (b2, a2) = bind("zq_fresh");
+            let control = format!("{prelude}{use_stmt}\n");
+            let inside = format!("{prelude}{b1}{use_stmt}{a1}");
+            let outside = format!("{prelude}{b1}local _inner = 1{a1}{use_stmt}\n");
+            let outside_twin = format!("{prelude}{b2}local _inner = 1{a2}{use_stmt}\n");
+            let before_prog = format!("{prelude}{use_stmt}\n{b1}local _inner = 1{a1}");
+            let before_twin = format!("{prelude}{use_stmt}\n{b2}local _inner = 1{a2}");
+            let r = (diags(&control), diags(&inside), diags(&outside), diags(&outside_twin), diags(&before_prog), diags(&before_twin));
+            let show = |v: &Option<Vec<String>>| match v {
+                Some(v) => list(v.iter().map(st).collect()),
+                None => atom("panic-or-parse-error"),
+            };
+            out.bump("luau_gate_cases");
+            out.case(
+                "C07.gate",
+                &list(vec![st(*root), st(*use_stmt), atom(*what), atom(format!("luau-{bname}")), st(&inside), st(&outside)]),
+                &list(vec![show(&r.0), show(&r.1), show(&r.2), show(&r.3), show(&r.4), show(&r.5)]),
+            );
+        }
+    }
 }
